@@ -153,7 +153,7 @@ Proof.
         rewrite ntake_0, app_nil_r. f_equal. lia.
       * apply N.leb_gt in E1. simpl. rewrite IH.
         rewrite ntake_app, nseq_length, N2Nat.id.
-        Show. rewrite ntake_all by (rewrite nseq_length; lia). reflexivity.
+        rewrite (ntake_all n (nseq o l)) by (rewrite nseq_length; lia). reflexivity.
 Qed.
 
 Lemma bytes_ddrop n d : bytes_of (ddrop n d) = nskip n (bytes_of d).
@@ -166,7 +166,7 @@ Proof.
       replace (n - N.of_nat (N.to_nat l)) with 0 by lia. reflexivity.
     + apply N.ltb_ge in E. rewrite IH.
       rewrite nskip_app, nseq_length, N2Nat.id.
-      rewrite nskip_all by (rewrite nseq_length; lia). reflexivity.
+      rewrite (nskip_all n (nseq o l)) by (rewrite nseq_length; lia). reflexivity.
 Qed.
 
 (* canonical form has the same meaning: the comparison used by the correspondence run
